@@ -303,6 +303,13 @@ def _xfilter(accumulator, test_range, condition, operating_range):
     from .operators import LOGIC_OPERATORS
     operator, operating_range = '=', np.asarray(operating_range)
     if isinstance(condition, str):
+        if condition in ('=', '<>'):  # Empty or not empty cells.
+            b = test_range['empty']
+            b = b if condition == '=' else ~b
+            try:
+                return accumulator(operating_range[b])
+            except FoundError as ex:
+                return ex.err
         for k in LOGIC_OPERATORS:
             if condition.startswith(k) and condition != k:
                 operator, condition = k, condition[len(k):]
